@@ -340,21 +340,53 @@ def _next_prefix(trace):
     return None
 
 
-def _dyadic_model(ctx, D):
-    """A model of the path condition in which every real input is a double (k / 2^40 grid first)."""
-    extra = []
-    reals = [n for n, m in D.meta.items() if m[0] == 'real']
-    if reals:
-        for g in (8, 40, 200):
-            extra = []
-            for n in reals:
-                k = z3.Int('dyk!%s' % n)
-                extra.append(ctx.inputs[n][1] * (2 ** g) == z3.ToReal(k))
-            m = ctx.any_model(extra)
-            if m is not None:
-                return m
+def _is_double(fr):
+    fr = Fraction(fr)
+    if fr == 0:
+        return True
+    d = fr.denominator
+    if d & (d - 1):
+        return False
+    n = abs(fr.numerator)
+    while n % 2 == 0:
+        n //= 2
+    return n < 2**53 and d.bit_length() < 1000
+
+
+def _dyadic_model(ctx, D, extra=()):
+    """A model of the path condition (+extra) in which every real input is a double.  A plain model is
+    taken first and each non-double value is then moved to a nearby dyadic candidate (concrete
+    equalities only: mixed integer/real searches make z3 diverge)."""
+    extra = list(extra)
+    m = ctx.any_model(extra)
+    if m is None:
         return None
-    return ctx.any_model()
+    reals = [n for n, mt in D.meta.items() if mt[0] == 'real']
+    if not reals:
+        return m
+    fixed = []
+    for n in reals:
+        const = ctx.inputs[n][1]
+        v = Fraction(core.zval(m.eval(const, model_completion=True)))
+        if _is_double(v):
+            fixed.append(const == core.zreal(v))
+            continue
+        ok = False
+        for g in (0, 1, 2, 3, 4, 8, 12, 16, 24, 32, 44, 52, 60, 70, 90):
+            sc = v * (1 << g)
+            fl = sc.numerator // sc.denominator
+            for cand in (Fraction(fl, 1 << g), Fraction(fl + 1, 1 << g)):
+                if not _is_double(cand):
+                    continue
+                m2 = ctx.any_model(extra + fixed + [const == core.zreal(cand)])
+                if m2 is not None:
+                    fixed.append(const == core.zreal(cand)); ok = True; m = m2
+                    break
+            if ok:
+                break
+        if not ok:
+            return None
+    return ctx.any_model(extra + fixed)
 
 
 def verify_config(cname, cfg, concolic=True, timeout_ms=None):
@@ -366,6 +398,7 @@ def verify_config(cname, cfg, concolic=True, timeout_ms=None):
            'concolic': 0, 'concolic_skipped': 0, 'checker_errors': [], 'native_failures': [],
            'solver_s': 0.0, 'assumed': set(), 'notes': [], 'exc_paths': 0, 'clauses_reached': {}}
     prefix = []
+    meta = {}
     while True:
         ctx = core.Ctx(prefix, timeout_ms)
         core.CTX = ctx
@@ -389,8 +422,8 @@ def verify_config(cname, cfg, concolic=True, timeout_ms=None):
                 clauses = dict(clauses)
                 clauses['no_exception'] = False
             pid = res['paths']
-            for cl, cond in clauses.items():
-                ctx.prove(cl, cond, kind='clause')
+            ctx.prove_all(clauses, kind='clause')
+            for cl in clauses:
                 res['clauses_reached'][cl] = res['clauses_reached'].get(cl, 0) + 1
             if obs.get('exc') is not None:
                 res['exc_paths'] += 1
@@ -402,6 +435,18 @@ def verify_config(cname, cfg, concolic=True, timeout_ms=None):
             res['checker_errors'].append('%s' % e)
         except Exception as e:
             res['checker_errors'].append('internal: %s: %s\n%s' % (type(e).__name__, e, traceback.format_exc()[-1500:]))
+        # refuted obligations: ask for a counter-model whose real inputs are doubles
+        for ob in ctx.oblig:
+            neg = ob.pop('_neg', None)
+            if neg is not None and ob['result'] == 'failed':
+                try:
+                    m = _dyadic_model(ctx, D, [neg])
+                    if m is not None:
+                        ob['model'] = ctx.model_inputs(m)
+                except Exception:
+                    pass
+            ob['approx'] = ctx.approx_used
+        meta = D.meta
         # collect obligations of this path
         for ob in ctx.oblig:
             ob = dict(ob)
@@ -429,10 +474,27 @@ def verify_config(cname, cfg, concolic=True, timeout_ms=None):
             res['undecided_paths'].append({'path': res['paths'], 'why': 'path cap %d reached' % PATH_CAP})
             break
         prefix = nxt
-    # failed obligations: replay natively
+    # failed obligations: replay natively; when the model itself does not fail on the real code,
+    # search its neighbourhood with the bounded stand-in
+    from . import bounded
+    nsearch = 0
     for ob in res['obligations']:
         if ob['result'] == 'failed':
-            ob['replay'] = replay_inputs(cname, cfg, ob.get('model') or {}, ob['label'])
+            rp = replay_inputs(cname, cfg, _js(ob.get('model') or {}), ob['label'])
+            rp['found_by'] = 'model'
+            if not (rp.get('replayable') and rp.get('failed_clauses')) and nsearch < 3:
+                nsearch += 1
+                ev, hit = bounded.search(cname, cfg, meta, ob.get('model'), seed=int(os.environ.get('VERIF_SEED', '0') or 0), budget=800)
+                res['bounded_evaluations'] = res.get('bounded_evaluations', 0) + ev
+                if hit is not None:
+                    rp = hit
+                    rp['found_by'] = 'bounded-neighbourhood'
+            ob['replay'] = rp
+            ob['model'] = _js(ob.get('model') or {})
+    if res['undecided_paths'] and not res['checker_errors']:
+        ev, hit = bounded.search(cname, cfg, meta, None, seed=int(os.environ.get('VERIF_SEED', '0') or 0), budget=1500)
+        res['bounded_evaluations'] = res.get('bounded_evaluations', 0) + ev
+        res['bounded_fallback'] = {'evaluations': ev, 'failure': hit}
     res['assumed'] = sorted(res['assumed'])
     res['wall_s'] = time.time() - t0
     core.CTX = None
@@ -463,7 +525,7 @@ def _concolic(c, cfg, ctx, D, inp, obs, Pnat, snap_n, res):
     finally:
         core.CTX = saved
     res['concolic'] += 1
-    if sym_c != nat_c:
+    if sym_c != nat_c and not ctx.approx_used:
         d = _first_diff(sym_c, nat_c)
         res['checker_errors'].append('concolic mismatch at cfg=%s inputs=%s: %s' % (json.dumps(cfg, default=str), _js(vals), d))
     bad = [k for k, v in ncl.items() if v is not True and not (v is not False and bool(v))]
